@@ -24,6 +24,7 @@ size_t gr;   /* ghost relative (vector) index */
 size_t bs_veq_w; /* witness position of a difference, assigned by the vector comparison shims */
 size_t gi;   /* ghost element index (splines of a collection, knots) */
 size_t gw;   /* ghost witness index for iff-style validation */
+size_t ge;   /* ghost element index of 'named' clauses (instantiated by callers at a loop index, bin/bsv.py ensures-named) */
 T gu;        /* ghost local coordinate (offset from the interval midpoint) */
 T gx;        /* ghost abscissa */
 
@@ -301,6 +302,10 @@ T __CPROVER_uninterpreted_int2_5_5(T, T, T, T, T, T, T, T, T, T, T);
 /* every element of a vector of splines is a valid spline on (the object) grid g */
 #define ALLVALID_AT(v, g, q) (!((q) < (v).n) || (spline_valid((v).d[q]) && same_grid_obj(SP_GRID((v).d[q]), g)))
 
+/* which case of a split loop step this build proves (bin/bsv.py `loop N case`) */
+#ifndef BS_CASESEL
+#define BS_CASESEL 0
+#endif
 /* selection between the quantified form of a statement and its written-out small-instance form */
 #if BS_CAP > 16
 #define BS_SEL(q, u) q
